@@ -267,7 +267,7 @@ func c04() []*Ob {
 				}
 				if fn := c.Fn("(*fracmanager.Fetcher).FetchDocs"); fn != nil {
 					n := 0
-					for _, in := range InstrsIn(fn, func(in ssa.Instruction) bool {
+					for _, lf := range c.P.FindLifted(fn, func(in ssa.Instruction) bool {
 						st, ok := in.(*ssa.Store)
 						if !ok {
 							return false
@@ -275,7 +275,7 @@ func c04() []*Ob {
 						ia, ok := st.Addr.(*ssa.IndexAddr)
 						return ok && ia.X.Type().String() == "[][]byte"
 					}) {
-						st := in.(*ssa.Store)
+						st := lf.In.(*ssa.Store)
 						ia := st.Addr.(*ssa.IndexAddr)
 						n++
 						viaMap := DerivesFrom(ia.Index, func(v ssa.Value) bool {
